@@ -7,7 +7,7 @@ from .. import gens, ref, util
 from ..core import Part
 
 PROPERTY = "C03"
-RULE = ("enum: every composition (n+, n-, n0) with N<=24 (quick) / N<=44 (thorough), each presented through 3 "
+RULE = ("enum: every composition (n+, n-, n0) with N<=27 (quick) / N<=44 (thorough), each presented through 3 "
         "seed-chosen arrangements and spellings; hyp: random compositions to 120 (quick) / 300 (thorough) residues with "
         "boosted regime boundaries (n0 in 16..20, n+ = n-, equal blocks, single minority charge), 2 presentations each. "
         "Oracle: (i) all presentations return the same value; (ii) get_deltaMax(True) returns (v, s) with v equal to the plain "
@@ -19,7 +19,7 @@ ASSUMPTIONS = ["vlc/ref.py:family transcribes the documented four-regime search 
                "float tolerance 1e-9 relative"]
 TECHNIQUE = ("exhaustive enumeration of compositions + Hypothesis property testing; oracle = exact-rational maximum over the "
              "documented candidate family, attainment check on the returned permutant, presentation-invariance (metamorphic)")
-LEVEL_TEXT = ("Exploration: complete over every composition up to N=24 (quick) / 44 (thorough) x 3 presentations, sampled to 300 "
+LEVEL_TEXT = ("Exploration: complete over every composition up to N=27 (quick) / 44 (thorough) x 3 presentations, sampled to 300 "
               "residues with boosted regime boundaries; value, attainment and composition-only dependence all asserted.")
 LEVEL_NOTE = "Trusts vlc/ref.py:family/delta; tolerance 1e-9; nothing claimed beyond explored compositions."
 
@@ -65,7 +65,7 @@ def mk_case(P, M, Z, rnd, k):
 
 def enum_cases(tier, seed):
     rnd = random.Random(seed)
-    hi = 24 if tier == "quick" else 44
+    hi = 27 if tier == "quick" else 44
     for P, M, Z in util.all_compositions(hi):
         yield mk_case(P, M, Z, rnd, 3)
 
@@ -82,5 +82,5 @@ def parts(tier):
              shards={"quick": 16, "thorough": 16}),
         Part("hyp-compositions", "hyp", check=check_comp,
              strategy=lambda t: hyp_case(120 if t == "quick" else 300),
-             examples={"quick": 320, "thorough": 4800}, shards={"quick": 16, "thorough": 16}),
+             examples={"quick": 800, "thorough": 6400}, shards={"quick": 16, "thorough": 16}),
     ]
